@@ -27,7 +27,7 @@ from syne_tune import Tuner
 from syne_tune.backend.trial_backend import TrialBackend
 from syne_tune.backend.trial_status import Status, TrialResult
 from syne_tune.config_space import randint
-from syne_tune.constants import ST_WORKER_TIMESTAMP
+from syne_tune.constants import ST_WORKER_COST, ST_WORKER_TIMESTAMP
 from syne_tune.optimizer.scheduler import SchedulerDecision, TrialScheduler, TrialSuggestion
 from syne_tune.results_callback import StoreResultsCallback
 from syne_tune.tuner_callback import TunerCallback
@@ -120,6 +120,7 @@ class ScriptedBackend(TrialBackend):
         self._in_stop_all = False
         self._stop_all_set = None
         self.ckpt: Dict[int, str] = {}
+        self.log_vals = False
 
     # ---- environment
     def _observe(self):
@@ -136,6 +137,8 @@ class ScriptedBackend(TrialBackend):
                 self.clock += 1
                 self.metrics[t].append({"m": self.values(t, r, i), "epoch": i, "run": r, "idx": i,
                                         ST_WORKER_TIMESTAMP: self.clock})
+                if self.log_vals:   # campaigns with value / cost criteria: cumulative cost (t + 1) * position
+                    self.metrics[t][-1][ST_WORKER_COST] = float((t + 1) * len(self.metrics[t]))
                 self.ckpt[t] = "present"
             elif a == "W_Exit":
                 if w.runs[-1] == 0:
@@ -223,7 +226,8 @@ class ScriptedBackend(TrialBackend):
     def fetch_status_results(self, trial_ids):
         st, res = super().fetch_status_results(trial_ids)
         dead = sorted(t for t, (_, s_) in st.items() if s_ == Status.failed or (s_ == Status.stopped and t in self.ext_stopped))
-        self.log.append({"a": "Fetch", "n": len(res), "ids": sorted(trial_ids), "dead": dead,
+        vals = [[int(t), int(r["m"]), int(r.get(ST_WORKER_COST, 0))] for t, r in res] if self.log_vals else []
+        self.log.append({"a": "Fetch", "n": len(res), "ids": sorted(trial_ids), "dead": dead, "vals": vals,
                          "res": [[t, r["run"], r["idx"]] for t, r in res],
                          "st": {str(t): s for t, (_, s) in st.items()}})
         return st, res
@@ -435,6 +439,7 @@ def run_tuner(conf: dict, script: Script, scheduler=None, stop_criterion=None, v
     else:
         log = []
         backend = ScriptedBackend(script, log, values=values, delete_checkpoints=bool(conf.get("del", False)))
+        backend.log_vals = conf.get("ckind") in ("minmetric", "maxmetric", "cost")
     sched = scheduler if scheduler is not None else ScriptedScheduler(script, conf.get("kind", "stop"))
     instrument_scheduler(sched, log)
     crit = stop_criterion if stop_criterion is not None else ScriptedCriterion(script)
@@ -504,7 +509,7 @@ def trace_conf(conf: dict) -> dict:
 
 TRACE_FIELDS = {
     "W_Emit": ("t",), "W_Exit": ("t",), "W_Fail": ("t",), "W_ExtStop": ("t",),
-    "Fetch": ("n", "dead"), "Result": ("t", "r", "i", "d"), "StopTrial": ("t",), "PauseTrial": ("t",),
+    "Fetch": ("n", "dead", "vals"), "Result": ("t", "r", "i", "d"), "StopTrial": ("t",), "PauseTrial": ("t",),
     "Remove": ("t",), "Complete": ("t",), "Error": ("t",), "CbComplete": ("t",), "Start": ("t", "from"),
     "Add": ("t",), "Resume": ("t",), "Delete": ("t",), "Exhausted": (), "StopCrit": ("b",), "Iter": (),
     "StopAll": ("S",), "End": ("kind", "named", "cnt"), "Removable": ("S",), "Queue": ("s",), "Busy": ("S",),
